@@ -350,6 +350,27 @@ impl Tracker {
                 }
                 if let (Some(e), Some(o)) = (rec.even, rec.odd) {
                     both_slots = true;
+                    // C13 says "the CPR pairing": besides the tracker rules (judged on the real get_position's candidates
+                    // below) the pairing itself is compared with the independent reference decoder - presence in both
+                    // orders and the coordinates - so that a pairing defect that needs a tracker history is reported here
+                    for (first, second) in [(&e, &o), (&o, &e)] {
+                        let rep = |a: &adsb_deku::Altitude| crate::cprref::Rep { odd: a.odd_flag == CPRFormat::Odd, yz: a.lat_cpr, xz: a.lon_cpr };
+                        let (r0, r1) = crate::cprref::rlats(e.lat_cpr, o.lat_cpr);
+                        if (r0.abs() - 87.0).abs() < 1e-6 || (r1.abs() - 87.0).abs() < 1e-6 {
+                            continue; // NL at exactly 87 deg has two accepted readings (see C05)
+                        }
+                        let want = crate::cprref::decode(rep(first), rep(second));
+                        let got = get_position((first, second));
+                        let ok = match (want, got) {
+                            (crate::cprref::Decode::Pos { lat, lon }, Some(g)) => (g.latitude - lat).abs() < 1e-6 && ((g.longitude - lon).abs() < 1e-6 || ((g.longitude - lon).abs() - 360.0).abs() < 1e-6),
+                            (crate::cprref::Decode::Pos { .. }, None) => false,
+                            (_, Some(_)) => false,
+                            (_, None) => true,
+                        };
+                        if !ok {
+                            s.viol.push((13, "cpr-pairing".into(), format!("{want:?} for second={:?} yz=({},{}) xz=({},{})", second.odd_flag, e.lat_cpr, o.lat_cpr, e.lon_cpr, o.lon_cpr), format!("{:?}", got.map(|g| (g.latitude, g.longitude)))));
+                        }
+                    }
                     // either pairing order is an acceptable reading of the statement: one verdict per order
                     for c in [get_position((&e, &o)), get_position((&o, &e))].into_iter().flatten() {
                         let c = (c.latitude, c.longitude);
@@ -975,6 +996,13 @@ pub fn c13(tier: Tier) -> i32 {
         let dp = if tier.thorough() { 6 } else { 4 };
         let o = explore(&run, &format!("C13/polar-jump/d{dp}"), tracker(alpha, rxp, 500.0, 1_000_000_000, 13), dp);
         outs.push(("polar-jump".into(), o));
+    }
+    // receivers next to the poles: raw reports on and next to the +-90 deg zone latitudes (NL = 1)
+    for (label, south) in [("south-pole", true), ("north-pole", false)] {
+        let rxp = if south { (-89.9, 30.0) } else { (89.9, 30.0) };
+        let dp = if tier.thorough() { 6 } else { 4 };
+        let o = explore(&run, &format!("C13/{label}/d{dp}"), tracker(alphabet_c13_poles(south), rxp, 400.0, 1_000_000_000, 13), dp);
+        outs.push((label.into(), o));
     }
     // deep single-aircraft histories
     let dd = if tier.thorough() { 9 } else { 7 };
